@@ -21,6 +21,7 @@ The only side condition is `n < 2^64` (`items.len()` is a `usize`).
 -/
 import Rs1090.Proofs.Tui
 import Rs1090.Gen.Ratatui
+import Rs1090.Gen.TuiPump
 namespace Rs1090.Props.C17
 open Rs1090 Rs1090.Model.Tui Rs1090.Proofs.Tui
 
@@ -509,6 +510,30 @@ theorem typing_then_redraw_clamps :
 
 /-! ### `tui.rs`: crossterm event → `tui::Event` -/
 
+/-- `pump` was written from these branches of `tui.rs` (re-read from the source on every run by
+    `gen/extractors/tuipump.py`: the two branches of the `tokio::select!`, the arms of `match maybe_event` and of
+    `match evt`, white space removed), clause by clause:
+    `.key k kind` — arm 1 (sent only when `kind == Press`, the `KeyEvent` unchanged);
+    `.resize col _` — arm 2 (only the `width` cell);  `.mouse _` — arm 3 (`k` on `ScrollUp`, `j` on `ScrollDown`,
+    the two `if`s are exclusive because `event.kind` is one value);  `.otherEvent` — arm 4;  `.readError` — arm 5;
+    `.streamEnd` — arm 6;  `.tickDue` — arm 7 (the only `send` whose failure is ignored; the four others `unwrap`,
+    which panics only when the receiver — owned by the UI task through `EventHandler` — is gone).
+    An edit of any arm makes this theorem fail until `pump` has been re-read. -/
+theorem pump_arms_modelled :
+    Gen.TuiPump.tickMillis = 250 ∧
+    Gen.TuiPump.arms = [
+      ("maybe_event=crossterm_event / Some(Ok(evt)) / crossterm::event::Event::Key(key)",
+        "if key.kind==crossterm::event::KeyEventKind::Press{tx.send(Event::Key(key)).unwrap();}"),
+      ("maybe_event=crossterm_event / Some(Ok(evt)) / crossterm::event::Event::Resize(col,_)",
+        "width=col"),
+      ("maybe_event=crossterm_event / Some(Ok(evt)) / crossterm::event::Event::Mouse(event)",
+        "if event.kind==crossterm::event::MouseEventKind::ScrollUp{tx.send(Event::Key(KeyEvent::new(crossterm::event::KeyCode::Char('k'),event.modifiers))).unwrap();}if event.kind==crossterm::event::MouseEventKind::ScrollDown{tx.send(Event::Key(KeyEvent::new(crossterm::event::KeyCode::Char('j'),event.modifiers))).unwrap();}"),
+      ("maybe_event=crossterm_event / Some(Ok(evt)) / _", ""),
+      ("maybe_event=crossterm_event / Some(Err(_))", "tx.send(Event::Error).unwrap();"),
+      ("maybe_event=crossterm_event / None", ""),
+      ("_=delay", "tx.send(Event::Tick(width)).unwrap_or(());")] :=
+  ⟨rfl, rfl⟩
+
 /-- **Total**: every turn of the event task sends at most one event and leaves a width. -/
 theorem pump_total (w : Nat) (i : Input) : ∃ w' evs, pump w i = (w', evs) ∧ evs.length ≤ 1 := by
   refine ⟨_, _, rfl, ?_⟩
@@ -600,5 +625,22 @@ example : (run (init 2) [.key (.char '/'), .key (.char 'q'), .key .enter]).toOpt
     = some (false, ['q']) := by decide
 example : (run (init 2) [.key (.char '/'), .key (.char 'q'), .key .enter, .key (.char 'q')]).toOption.map (·.quit)
     = some true := by decide
+/-- the hypotheses of `mainLoop_inv` are satisfiable: a search typed on two aircraft, then `Esc` -/
+example : ItersOk [⟨some (.key (.char '/')), ⟨100, 30⟩, 5, twoAircraft⟩, ⟨some (.key (.char 'b')), ⟨80, 24⟩, 6, []⟩,
+    ⟨none, ⟨80, 24⟩, 7, twoAircraft⟩] := by
+  intro it h
+  simp only [List.mem_cons, List.not_mem_nil, or_false] at h
+  rcases h with rfl | rfl | rfl <;> exact ⟨by decide, by decide⟩
+/-- the filter lists by address, callsign (case-insensitive), registration without dashes; not the stale or once-seen -/
+example : (displayed litMatch 100 "f-gk".toList
+    [{ icao24 := "39ac45".toList, registration := some "F-GKXA".toList, lastseen := 90 },
+     { icao24 := "0fgk00".toList, lastseen := 100 },
+     { icao24 := "aaaaaa".toList, callsign := some "FGK1".toList, lastseen := 60 },
+     { icao24 := "bbbbbb".toList, callsign := some "FGK2".toList, count := 1, lastseen := 100 },
+     { icao24 := "cccccc".toList, lastseen := 100 }]).map (fun a => String.ofList a.icao24) = ["39ac45", "0fgk00"] := by
+  decide
+/-- crossterm history: a release is dropped, the wheel scrolls, a resize is carried by the next tick -/
+example : pumpAll 80 [.key (.char 'q') .release, .mouse .scrollDown, .resize 120 40, .tickDue, .readError, .key .esc .press]
+    = [.key (.char 'j'), .tick 120, .error, .key .esc] := by decide
 
 end Rs1090.Props.C17
